@@ -49,7 +49,8 @@ def gen_formula(r, names, depth):
     return "%s(%s,%s)" % (op, gen_formula(r, names, depth - 1), gen_formula(r, names, depth - 1))
 
 
-NAME_POOL = ["10", "2", "1", "9", "a", "B", "b", "x10", "x2", "x1", "and", "c", "neg", "s0", "s1"]
+NAME_POOL = ["10", "2", "1", "9", "a", "B", "b", "x10", "x2", "x1", "and", "c", "neg", "s0", "s1",
+             '"ü"', '"a b"', '"𝛼"', '"x𝛼😀y"', '"日本"']
 
 
 def gen_adf(r):
